@@ -3,7 +3,7 @@ CONSTANTS
   Keys = {"a", "b", "c"}
   MaxIdx = 4
   N = 4
-  EmitOneIn = 1
+  EmitOneIn = 12
   Kind = "dict"
 SPECIFICATION Spec
 INVARIANTS Laws Emit
